@@ -19,6 +19,9 @@ DZ = {
     "d15x9": [0.15] * 9,   # 1.35 m, few compartments (small arrays)
     "d15x20": [0.15] * 20,  # odd number of centimetres: compartment centres fall on half centimetres (never deepened: 3.0 m)
     "odd": [0.05] * 4 + [0.15] * 18,
+    # lists that do NOT thicken with depth: refined around a layer interface at 0.6 m / a thick top compartment
+    "refined": [0.1, 0.1, 0.2, 0.2] + [0.05] * 4 + [0.1] * 9,   # 1.7 m
+    "thicktop": [0.3] + [0.1] * 14,                              # 1.7 m
     "few8": [0.1] * 4 + [0.2] * 4,  # few compartments: deepening for a deep-rooted crop thickens even the top one
 }
 
@@ -37,7 +40,10 @@ SHORT_LAYER = {"type": "custom", "layers": [[0.9, 0.10, 0.22, 0.41, 1200.0, 100]
 SAND_OVER_CLAY = {"type": "custom", "layers": [[0.3, 0.06, 0.13, 0.36, 3000.0, 100], [3.7, 0.39, 0.54, 0.55, 35.0, 100]]}
 CLAY_OVER_SAND = {"type": "custom", "layers": [[0.4, 0.39, 0.54, 0.55, 35.0, 100], [3.6, 0.06, 0.13, 0.36, 3000.0, 100]]}
 
+LOAM_OVER_PAN = {"type": "custom", "layers": [[0.6, 0.10, 0.22, 0.41, 500.0, 100], [3.4, 0.30, 0.42, 0.52, 2.0, 100]]}   # perched water on a pan of 2 mm/day
+
 SOILS = {
+    "loamoverpan": LOAM_OVER_PAN,
     "sandoverclay": SAND_OVER_CLAY,
     "clayoversand": CLAY_OVER_SAND,
     "Sand": {"type": "Sand"},
@@ -159,8 +165,8 @@ WINDOWS = {  # (start offset in days relative to first planting, n seasons, trai
 }
 
 WATER_MENUS = {
-    "soil": ["SandyLoam", "Sand", "Clay", "Paddy", "custom3", "ClayLoam", "sandoverclay", "clayoversand", "custom3u", "customtex", "tex60"],
-    "dz": ["d12", "nonuni", "deep30", "few8"],
+    "soil": ["SandyLoam", "Sand", "Clay", "Paddy", "custom3", "ClayLoam", "sandoverclay", "clayoversand", "custom3u", "customtex", "tex60", "loamoverpan"],
+    "dz": ["d12", "nonuni", "deep30", "few8", "refined", "thicktop"],
     "iwc": IWC_KINDS,
     "irr": ["none", "smt", "smt100e70", "int3", "sched", "net80", "net50", "net100", "const8e70", "const40e40", "smt_cap60", "smt_e72.5", "const8e87.75", "int3e62.5"],
     "field": ["none", "bunds200", "bunds50w20", "bunds50w500", "mulch", "srinhb", "cn+20", "bunds_mulch"],
@@ -284,6 +290,11 @@ def to_spec(c, planting="05/01", year=2001):
     crop["kw"] = {**crop["kw"], **CROPOPT[c.get("cropopt", "default")]}
     crop["planting"] = c.get("planting", planting)
     crop["harvest"] = None
+    if c.get("harvest"):
+        # a user-given latest harvest date, `harvest` days after planting (binds before maturity when shorter than the crop's length)
+        mm0, dd0 = (int(x) for x in crop["planting"].split("/"))
+        hd = _dt.datetime(2001, mm0, dd0) + _dt.timedelta(days=int(c["harvest"]))
+        crop["harvest"] = f"{hd.month:02d}/{hd.day:02d}"
     soil = copy.deepcopy(SOILS[c["soil"]])
     soil["dz"] = DZ[c.get("dz", "d12")]
     soil.setdefault("kw", {})
@@ -367,6 +378,11 @@ WATER_BASES = [
     _b(soil="tex60", iwc="WP", irr="none", word="dry", crop="maize.2"),
     # three contrasting layers with float-unlucky boundaries under a shallow table (every compartment is driven to its own layer's limits)
     _b(soil="custom3u", iwc="Pct50", gw="0.8", dz="nonuni", word="dry", crop="cotton.2", irr="none"),
+    # seasons ended by a user-given harvest date (before maturity) with water still ponded behind in-season bunds, off-season simulated
+    # and unbunded: the harvest day is the bund-removal day
+    _b(soil="Paddy", iwc="SAT", field="bunds200", fallow="none", irr="const40e40", off=True, win="w2", crop="rice.2", harvest=12, word="showers"),
+    # perched water on a slowly draining pan under a thickness list refined around the layer interface (thicker compartments ABOVE thinner ones)
+    _b(soil="loamoverpan", iwc="FC", dz="refined", word="wet", crop="maize.2", irr="none", win="w2"),
 ]
 
 
